@@ -18,6 +18,9 @@ def run(tier, seed):
                 'A-newton: the residual is tested before the last Newton update is applied (stated, not decided)')
     items = [(P.nr_step('C17'), None, P.replay_nr_step), (P.nr_solve('C17'),), (P.run('C17'), None, P.replay_run),
              (T.step('C17'), T.WIT_F9, T.replay_step), (T.run('C17'), T.WIT_F18, T.replay_run)]
+    # unparsable input: the status of reading the base case AND the additional file is what the loader reports
+    from contracts import fn_main as FM
+    items += [(FM.io_parse('C17'), None, FM.replay_io_parse)]
     run_contracts(pack, items)
     from contracts import C17_more
     C17_more.add_obligations(pack, tier)
